@@ -26,7 +26,7 @@ def plan(tier):
     opt = '-O1' if tier == 'quick' else '-O3'
     def cq(name, desc, defs, ll, timeout=1200):
         return Q(name, 'c08.c', 'forall pairs of secrets (key, tweak, counter, data, whole prior context) with equal public parameters: ' + desc + ' - identical branch and address event traces [clang %s IR]' % opt,
-                 defs=defs, ll=ll, timeout=timeout, fsarray=1400, replay='ir', mem_gb=16, unwind=1400, mem_est=4)
+                 defs=defs, ll=ll, timeout=timeout, fsarray=6100, replay='ir', mem_gb=16, unwind=1400, mem_est=4)
     def ciph_ll(n): return [LL('src/%s-cipher.c' % n, flags=('-msse2',), ct=True, opt=opt)]
     # ---- single-block API
     for case0, n, blk, rr in ((0, 'skinny128', 16, (40, 48, 56)), (10, 'skinny64', 8, (32, 36, 40))):
